@@ -5,3 +5,12 @@ cd "$(dirname "$0")"
 export CARGO_NET_OFFLINE=true
 (cd driver && cargo build --release --offline)
 VERIF_FORCE_FACTS=1 python3 vpa/facts.py default stl
+# warm the fixture crate and the witness doc-tests (thorough tier)
+python3 - <<'PY'
+import sys, os
+sys.path.insert(0, os.getcwd())
+from vpa import facts, witness
+facts.load_fixtures()
+r = witness.run()
+print('witnesses:', len(r))
+PY
